@@ -130,6 +130,11 @@ fn main() {
         ctx.finish("fault_enumeration", "replay");
     }
     let quick = ctx.quick();
+    if std::env::var("C05_ONLY_LATE").is_ok() {
+        // debugging aid: only the write-task seam leg
+        late::run(&ctx);
+        ctx.finish("fault_enumeration", "debug: wt-late-lane only");
+    }
     if !vcommon::sched::is_worker() {
         wide::run_leg_sized(&ctx, &ctx.root, "store-keeps-items-apart", if quick { 1_100 } else { 66_000 });
         late::run(&ctx);
